@@ -2,8 +2,8 @@
 
 from .frontend import PRIMITIVES
 
-CLASSES = [c for c in PRIMITIVES if c != "Bag"]
-SINGLE_PATH = ["Count", "Sum", "Average", "Deviate", "Minimize", "Maximize", "Bin", "SparselyBin", "CentrallyBin", "IrregularlyBin", "Categorize", "Select"]
+CLASSES = list(PRIMITIVES)
+SINGLE_PATH = ["Bag", "Count", "Sum", "Average", "Deviate", "Minimize", "Maximize", "Bin", "SparselyBin", "CentrallyBin", "IrregularlyBin", "Categorize", "Select"]
 
 # method-kind -> properties that have clauses on it
 KIND_PROPS = {
